@@ -2,6 +2,6 @@
 # Runs upstream's own unit+functional tests (uncollectable without the native parser) under the vt shim.
 # Informational: used to make sure "fix:" commits keep upstream's expectations.
 HERE="$(cd "$(dirname "$0")/.." && pwd)"
-sh "$HERE/shim/build.sh" >/dev/null 2>&1
+bash "$HERE/shim/build.sh" >/dev/null 2>&1
 cd "${VERIF_REPO:-/repo}" && LIBGRAPHQLPARSER_DIR="$HERE/build/shim" PYTHONDONTWRITEBYTECODE=1 \
   /venv/bin/python -m pytest -q -p no:cacheprovider -o asyncio_mode=auto -x -q -n 8 "${@:-tests/unit tests/functional}" 2>&1 | tail -15
